@@ -156,11 +156,7 @@ Definition exact : list (string * cls) := [
      Unreachable "generate_random_bytes(32) returns 32 bytes; conversion to [u8; 32] cannot fail");
   ("consensus::peers::peer::Peer::handle_handshake_response#1-unwrap",
      Unreachable "guarded by the challenge_for_peer.is_none() early return");
-  ("consensus::peers::peer::Peer::handle_handshake_response#2-assert",
-     Known "C17:assert-key-changed-panic");
-  ("consensus::peers::peer::Peer::handle_handshake_response#3-unwrap",
-     Unreachable "guarded by self.public_key.is_some()");
-  ("consensus::peers::peer::Peer::handle_handshake_response#4-unwrap@info",
+  ("consensus::peers::peer::Peer::handle_handshake_response#2-unwrap@info",
      Unreachable "public_key was set to Some a few lines above");
   ("consensus::peers::peer::Peer::send_ping#1-unwrap",
      LocalOnly "result of an InterfaceIO call of the node's own IO layer (saito-rust's RustIOHandler always answers Ok; an Err means the internal channel to the network controller is closed)");
